@@ -5,10 +5,11 @@ import AgModel.Model.Sampler
 ops (one output line each):
   stakes s0 … s(n-1)        set the stake vector                                -> `n <n> total <T>`
   fa1 k                     FA1 pre-processing (both fallbacks)                  -> `fa1 kprime <k'> req …` | `panic`
-  fa1p k                    `new_with_partition_fallback`: fa1 + D8 condition    -> `ok` | `panic`
+  fa1p k                    `new_with_partition_fallback`: fa1 + partition of the
+                            fallback weights (validator order) into k' bins      -> `ok` | `panic`
   part w bins o1 o2 …       partition (w = `s`: current stakes, `f`: FA1 fallback weights of the last fa1)
                             in the observed order                                -> `ord <b> bins id:st,…|…` | `ord <b> panic`
-  degenerate w bins         order-independent D8 condition                       -> `degenerate <b>`
+  constructible w bins      partition (validator order) does not panic           -> `constructible <b>`
   fa2 k                     FA2 constructor                                      -> `ok req … medium …` | `panic`
   drawp k / drawq …         see below: committees observed on the real code      -> `valid <b> floor <b>`
 -/
@@ -29,6 +30,10 @@ def showBins (bins : List (List (Nat × Nat))) : String :=
 def weightsOf (st : St) (w : String) : List Nat :=
   if w == "f" then (st.fa.map (·.weights)).getD [] else st.stakes
 
+/-- the validators of non-zero weight in validator order (an order satisfying `orderOk`; whether the
+    constructor panics does not depend on the order: `Props.C17.partition_total`). -/
+def canonOrder (w : List Nat) : List Nat := (List.range w.length).filter (fun v => w.getD v 0 != 0)
+
 def step (st : St) (ws : List String) : St × List String :=
   match ws with
   | "case" :: k :: _ => ({}, [s!"case {k}"])
@@ -43,7 +48,7 @@ def step (st : St) (ws : List String) : St × List String :=
   | ["fa1p", k] =>
     match fa1 st.stakes (nat! k) with
     | none => (st, ["panic"])
-    | some f => (st, [if partitionDegenerate f.weights f.kPrime then "panic" else "ok"])
+    | some f => (st, [if (partition f.weights (canonOrder f.weights) f.kPrime).isSome then "ok" else "panic"])
   | "part" :: w :: bins :: os =>
     let order := nats os
     let wts := weightsOf st w
@@ -51,7 +56,9 @@ def step (st : St) (ws : List String) : St × List String :=
     match partition wts order (nat! bins) with
     | none => ({ st with order := order }, [s!"ord {ok} panic"])
     | some b => ({ st with order := order }, [s!"ord {ok} bins {showBins b}"])
-  | ["degenerate", w, bins] => (st, [s!"degenerate {partitionDegenerate (weightsOf st w) (nat! bins)}"])
+  | ["constructible", w, bins] =>
+    let wts := weightsOf st w
+    (st, [s!"constructible {(partition wts (canonOrder wts) (nat! bins)).isSome}"])
   | ["fa2", k] =>
     match fa2 st.stakes (nat! k) with
     | none => ({ st with k := nat! k }, ["panic"])
